@@ -68,7 +68,18 @@ pub fn gen_u64(r: &mut Rng) -> u64 {
     }
 }
 
-/// Finite floats only (the property excludes NaN and the infinities).
+/// Floats for *typed* values: finite (the statement restricts values of serialisable types to finite floats).
+pub fn gen_f64_finite(r: &mut Rng) -> f64 {
+    loop {
+        let x = gen_f64(r);
+        if x.is_finite() {
+            return x;
+        }
+    }
+}
+
+/// Floats for model values and number texts: finite ones and the infinities (a model value is arbitrary, and the
+/// parser itself produces an infinity from `1e400`); never NaN.
 pub fn gen_f64(r: &mut Rng) -> f64 {
     let x = match r.below(30) {
         0 => 0.0,
@@ -243,7 +254,7 @@ pub fn gen_typed(r: &mut Rng) -> TV {
         2 => TV::I64(gen_i64(r)),
         3 => TV::U32(gen_u32(r)),
         4 => TV::U64(gen_u64(r)),
-        5 | 6 => TV::F64(gen_f64(r).to_bits()),
+        5 | 6 => TV::F64(gen_f64_finite(r).to_bits()),
         7 => TV::Bool(r.chance(1, 2)),
         8 | 9 | 10 => TV::Str(gen_string(r)),
         11 => TV::Text(gen_string(r)),
@@ -253,7 +264,7 @@ pub fn gen_typed(r: &mut Rng) -> TV {
         15 => TV::VecI32(gen_vec(r, 8, gen_i32)),
         16 => TV::VecI64(gen_vec(r, 8, gen_i64)),
         17 => TV::VecU64(gen_vec(r, 8, gen_u64)),
-        18 => TV::VecF64(gen_vec(r, 8, |r| gen_f64(r).to_bits())),
+        18 => TV::VecF64(gen_vec(r, 8, |r| gen_f64_finite(r).to_bits())),
         19 => TV::VecBool(gen_vec(r, 8, |r| r.chance(1, 2))),
         20 => TV::VecStr(gen_vec(r, 8, gen_string)),
         21 => TV::VecVecStr(gen_vec(r, 4, |r| gen_vec(r, 4, gen_string))),
@@ -282,13 +293,13 @@ pub fn gen_typed(r: &mut Rng) -> TV {
             TV::MapI32Str(m)
         }
         28 => TV::Plain { a: gen_i32(r), b: gen_string(r), c: if r.chance(1, 2) { None } else { Some(gen_i64(r)) } },
-        29 => TV::Hdr { h: gen_i32(r), at: gen_string(r), x: gen_f64(r).to_bits(), items: gen_vec(r, 4, gen_string) },
+        29 => TV::Hdr { h: gen_i32(r), at: gen_string(r), x: gen_f64_finite(r).to_bits(), items: gen_vec(r, 4, gen_string) },
         30 => TV::HdrBody { n: gen_string(r), m: gen_u64(r), flag: r.chance(1, 2) },
         31 => TV::Wrap { n: gen_i32(r), inner: gen_vec(r, 4, gen_string) },
         32 => TV::Tup(gen_i32(r), gen_string(r)),
         33 => match r.below(4) {
             0 => TV::ShapeNil,
-            1 => TV::ShapeCircle(gen_f64(r).to_bits()),
+            1 => TV::ShapeCircle(gen_f64_finite(r).to_bits()),
             2 => TV::ShapePair(gen_string(r), gen_i64(r)),
             _ => TV::ShapeHolder {
                 a: gen_i32(r),
